@@ -68,8 +68,8 @@ func runH1(tr *vh.Trace, laddr, name string, rng *rand.Rand, nclients, per int) 
 					cl = nil
 					continue
 				}
-				d := evWait + time.Second
-				if atomic.LoadInt64(&lost) > lost0 {
+				d := patientWait // a missing reply is judged only after a wait no load explains
+				if atomic.LoadInt64(&lost) >= 3 {
 					d = 500 * time.Millisecond
 				}
 				o := cl.Recv(d, 0)
@@ -95,7 +95,7 @@ func runH1(tr *vh.Trace, laddr, name string, rng *rand.Rand, nclients, per int) 
 	}
 	wg.Wait()
 	time.Sleep(200 * time.Millisecond) // let the late answers of the abandoned exchanges go out
-	tr.Emit(vh.Ev{"ev": "quiesce"})
+	tr.Emit(vh.Ev{"ev": "quiesce", "patient": lost0 < 3})
 	return map[string]interface{}{"name": name, "requests": total, "errors": errs, "noreply": noreply}
 }
 
